@@ -39,6 +39,10 @@ add('KF-close-stops-recycling', ['C07'], ['result_missing_or_wrong_after_join', 
     {'recycling': True, 'pending_at_close': True, 'lane': 'real'},
     'close() with maxtasksperchild while more work is queued than the live workers\' remaining quota: the supervisor stops at close() (its loop runs only while the pool is in RUN state), recycled workers are not replaced, the queued jobs never run and join() gives up 5 s after the last worker left')
 
+add('KF-early-resolved-map-parts-at-close', ['C07'], ['join_slow'],
+    {'failed_map_pending_at_close': True, 'lane': 'real'},
+    'close() while chunks of a map that already failed (resolved by its first failing chunk and dropped from the cache) are still queued or running: the result handler leaves as soon as the cache is empty, nobody reads the results those chunks still produce, and their workers wait out the 30 s consumption guard before they exit, so join() takes 30 s longer')
+
 add('KF-terminate-no-threads-idle', ['C08'], ['terminate_hung'],
     {'threads': False, 'idle_workers': True, 'lane': 'real', 'scenario': 'terminate'},
     'terminate() on a pool without helper threads (threads=False) while a worker is idle: _help_stuff_finish blocks forever acquiring the in-queue read lock, which an idle worker holds inside its blocking receive; the sentinels that would wake the worker are only sent later in _terminate_pool')
